@@ -151,14 +151,20 @@ def insert_loop_contracts(body, loops, fired, name):
         want = frozen[str(o)]
         rank = sum(1 for k in range(o) if frozen.get(str(k)) == want) if all(str(k) in frozen for k in range(o)) else 0
         same = [i for i, (_, h) in enumerate(heads) if h == want]
-        if len(same) <= rank and len(heads) == len(frozen):
+        def loopvar(h):
+            mm = re.match(r'for \((?:[\w\s\*]+?[\s\*])?(\w+)\s*=', h) or re.match(r'while \(\s*!?\s*\(?\s*(\w+)', h)
+            return mm.group(1) if mm else None
+        if len(same) <= rank and len(heads) == len(frozen) and o < len(heads) and loopvar(heads[o][1]) is not None and loopvar(heads[o][1]) == loopvar(want):
             # same number of loops as when the contract was written: the header was edited in place (e.g. a changed bound) -- the contract stays
             # with the loop at its position, and a wrong bound then fails the contract instead of hiding behind a slicer error
             target[o] = o; fired['R-loop.by_position'] = fired.get('R-loop.by_position', 0) + 1; continue
-        if len(same) <= rank: raise SliceError('%s: the loop `%s` that carries loop contract %d is no longer in the function (needs a new contract; not a violation)' % (name, want[:80], o))
+        if len(same) <= rank:
+            # the loop is gone (rewritten in another shape): the function is still sliced, WITHOUT this loop contract; jobs that enforce its function
+            # contract through loop contracts are undecided (they need a new invariant), lemma harnesses that unwind still decide what they can
+            fired['R-loop.dropped'] = fired.get('R-loop.dropped', 0) + 1; continue
         target[o] = same[rank]
     out = []; last = 0
-    for o in sorted(loops, key=lambda k: target[k]):
+    for o in sorted(target, key=lambda k: target[k]):
         q = heads[target[o]][0]
         out.append(body[last:q+1]); out.append('\n' + loops[o] + '\n'); last = q + 1
         fired['R-loop'] = fired.get('R-loop', 0) + 1
@@ -296,6 +302,15 @@ def slice_function(root, spec):
     for mem in spec.get('members', []):
         body, k = re.subn(r'(?<![\w>.])(?:this->)?%s\b' % re.escape(mem), 'self->' + mem, body)
         fired['R-self:' + mem] = k
+    # R-sibling: an unqualified call of another member function of the same class that is itself sliced in this unit (names `<Class>_<method>`)
+    # becomes a call of that slice on the same object.  Listed rewrites have already run, so this only picks up calls they do not know (e.g. a
+    # refactoring that starts using AvailBits() inside GetBits()).
+    sib = spec.get('_siblings') or {}
+    for meth, cname in sib.items():
+        if not re.search(r'\bself\b', spec['sig']): break
+        body, k1 = re.subn(r'(?<![\w>.:&])%s\(\s*\)' % re.escape(meth), '%s(self)' % cname, body)
+        body, k2 = re.subn(r'(?<![\w>.:&])%s\(' % re.escape(meth), '%s(self, ' % cname, body)
+        if k1 + k2: fired['R-sibling:' + meth] = k1 + k2
     # R-loop
     spec['_heads'] = [h for _, h in loop_heads(body)]
     body = insert_loop_contracts(body, spec.get('loops', {}), fired, spec['name'])
@@ -394,7 +409,14 @@ def generate(root, unit):
     for f in unit['functions']:
         fparts.append(f['sig'] + ';\n')
     errors = []
+    names = [f['name'] for f in unit['functions']]
     for f in unit['functions']:
+        cls = f['name'].split('_', 1)[0] if '_' in f['name'] else None
+        f['_siblings'] = {n[len(cls) + 1:]: n for n in names if cls and n.startswith(cls + '_') and n != f['name'] and re.match(r'^[A-Za-z]\w*$', n[len(cls) + 1:]) and not re.search(r'_(u|i)\d+$|_f32$', n)} if cls else {}
+        if f['name'] in unit.get('exclude', ()):
+            msg = unit['exclude'][f['name']]
+            errors.append(msg); recs.append({'name': f['name'], 'file': f['file'], 'line': 0, 'rules': {}, 'error': msg})
+            fparts.append('/* NOT SLICED: %s */\n' % msg.replace('*/', '* /')); continue
         try:
             t, r = slice_function(root, f)
         except SliceError as e:
